@@ -180,6 +180,9 @@ func builtinArraySplice(call FunctionCall) Value {
 		indexString := arrayIndexToString(start + index)
 		if thisObject.hasProperty(indexString) {
 			valueArray[index] = thisObject.get(indexString)
+		} else {
+			// A hole stays a hole in the array of removed elements (ECMA 262 15.4.4.12 step 9.c).
+			valueArray[index] = emptyValue
 		}
 	}
 
